@@ -480,6 +480,8 @@ pub fn run(ctx: &Ctx) {
 
     ctx.run_prop("read-to-end", ctx.cases(4000, 150_000), gen::read_case(false), check_read_to_end);
     ctx.run_prop("read-to-string", ctx.cases(4000, 150_000), gen::read_case(true), check_read_to_string);
+    ctx.run_prop("read-to-end-bursts", ctx.cases(250, 8_000), gen::burst_case(false), check_read_to_end);
+    ctx.run_prop("read-to-string-bursts", ctx.cases(150, 5_000), gen::burst_case(true), check_read_to_string);
     ctx.run_prop("read-exact", ctx.cases(2500, 100_000), gen::exact_case(), check_read_exact);
     ctx.run_prop("write-all", ctx.cases(2500, 100_000), gen::write_case(), check_write_all);
     ctx.run_prop("write-fmt", ctx.cases(1500, 60_000), gen::fmt_case(), check_write_fmt);
